@@ -38,6 +38,9 @@ def parseOut (s : String) : Option Out :=
   | [a, m, "stk", f] => do let n ← m.toNat?; let fr ← f.toNat?; pure ⟨a, n, .stk fr⟩
   | [a, m, "bind", t] => m.toNat?.map (fun n => ⟨a, n, .bindOld t⟩)
   | [a, m, "bind22", t] => m.toNat?.map (fun n => ⟨a, n, .bindNew t⟩)
+  -- binding template to holder `a` whose target has no address form: the wallet reads it as unsupported,
+  -- the node's script-hash index lists it under `a` (engines imp / rem; fix D41)
+  | [a, m, "bindbad", _] => m.toNat?.map (fun n => ⟨a, n, .raw⟩)
   | _ => none
 
 def ctx (st : St) : Ctx := { p := st.p, own := st.own, wallets := st.wallets, node := st.node }
